@@ -350,3 +350,43 @@ Fixpoint selmap_of (l : list N) : selmap :=
   end.
 Definition k_seldec (l : list N) : list N :=
   match stdout_page (selmap_of l) with Some p => [1%N; Z.to_N p] | None => [0%N] end.
+
+(* ---- reading stdin: pkg/cli/io.go readSeekerFromStdin
+     n, copyErr := io.Copy(f, os.Stdin)
+     if copyErr != nil { return nil, in.finalize(op, "read stdin: …") }
+     if n == 0        { return nil, in.finalize(op, "read stdin: stdin is empty") }
+   stdin is a sequence of read results: data, or a failing read (EIO, ECONNRESET, timeout) ---- *)
+Inductive chunk := CData (b : list N) | CErr.
+
+(* io.Copy: the bytes delivered before the first failing read, and whether every read succeeded *)
+Fixpoint copy_stdin (cs : list chunk) : list N * bool :=
+  match cs with
+  | [] => ([], true)
+  | CErr :: _ => ([], false)
+  | CData b :: r => let (bs, ok) := copy_stdin r in (b ++ bs, ok)
+  end.
+
+Definition read_all (cs : list chunk) : option (list N) :=
+  let (bs, ok) := copy_stdin cs in if ok then Some bs else None.
+
+Definition stdin_res_of (cs : list chunk) : stdin_res :=
+  let (bs, ok) := copy_stdin cs in
+  if negb ok then SCopyFail
+  else match bs with [] => SEmpty | _ => SOk end.
+
+(* the merged variant: a read error is only looked at when zero bytes arrived *)
+Definition stdin_res_merged (cs : list chunk) : stdin_res :=
+  let (bs, ok) := copy_stdin cs in
+  match bs with
+  | [] => if ok then SEmpty else SCopyFail
+  | _ => SOk
+  end.
+
+(* wire: 0 = failing read, n > 0 = n bytes of data.  Reply [class (0 ok, 2 read error, 3 empty); bytes usable] *)
+Definition k_stdincopy (codes : list N) : list N :=
+  let cs := map (fun c => if N.eqb c 0 then CErr else CData (repeat 65%N (N.to_nat c))) codes in
+  match stdin_res_of cs with
+  | SCopyFail => [2%N; 0%N]
+  | SEmpty => [3%N; 0%N]
+  | _ => [0%N; N.of_nat (List.length (fst (copy_stdin cs)))]
+  end.
